@@ -3,15 +3,19 @@ import itertools
 import json
 
 import lib
+from checks import raftlog_common as rc
 
-TARGETS = ["Props/C20.v", "Codec/Script.v"]
+TARGETS = ["Props/C20.v", "Codec/Script.v", "RaftLog/LogScript.v"]
 
 MANIFEST = dict(
     text="Theorems over ALL u64 values / all byte strings for the varint writer, reader and size function "
          "(round trip at any offset, size agreement, canonical form, unrolled reader = LEB128 loop), about a "
          "literal Gallina transcription of protobuf_utils.rs; model tied to the code by a differential "
          "correspondence run (real write_varint64/read_varint64_offset/inner_sizeof_varint/MessageBufReader/"
-         "FileMessageReader vs the model evaluated by vm_compute) plus an independent property oracle.",
+         "FileMessageReader vs the model evaluated by vm_compute) plus an independent property oracle. "
+         "Consumer level: scan_stops_at_first_zero / scan_stops_at_count (Codec/ScanProofs.v: the repaired "
+         "end-of-log scan counts every record for EVERY chunking; refuted for the old is_empty test) and real log "
+         "files whose frames end exactly on 1024-byte chunk boundaries, reopened through LogInnerManager.",
     note="Trusted: Coq kernel+vm_compute, the hand transcription (checked by the correspondence on seeded cases), "
          "harness and runner glue. Disk read errors and record lengths >= 2^63 are out of the model.",
     technique="Rocq proof (induction, bit-vector lemmas) + model/implementation correspondence",
@@ -493,6 +497,15 @@ def run(chk, replay=None):
                 chk.violation("model != implementation (FileMessageReader): %s" % lib.diff_first(m, ri),
                               {"suite": "codec", "case": c, "model": m, "impl": ri, "correspondence": "Codec.BufReader.fmr"}, False)
 
+    # ---- consumer level: the end-of-log scan of real log files (harness suite `logfile`): frames that end
+    # exactly on 1024-byte read-chunk boundaries, measured from offset 4096 and from an index entry; a reopen
+    # must count all records (defect 1 = `consumer:logfile:end-index-after-reopen`)
+    cons_cases = rc.gen_chunk_boundary(rng) + rc.gen_reopen_points(rng)[:3]
+    n_c, nt_c, mm_c, _ = rc.run_logfile_part(chk, cons_cases, [], "c20lf")
+    n_eval += n_c
+    nontrivial |= {("consumer",) + x for x in nt_c}
+    mism += mm_c
+
     if not proofs_ok:
         chk.violation("proof obligations of C20 no longer check: %s" % chk.proof_failure[:300],
                       {"broken": "theorem", "detail": chk.proof_failure}, False)
@@ -508,6 +521,7 @@ def run(chk, replay=None):
     chk.cov["input_distribution"] = {
         "varints": len(var_cases), "garbage_decodes": len(dec_cases), "stream_x_chunkings": len(stream_cases),
         "step_scripts": len(garb_cases), "file_scripts": len(file_cases),
+        "consumer_logfile_histories": len(cons_cases),
         "garbage_decode_outcomes": {k: sum(1 for r in impl_dec if r["r"] == k) for k in ("ok", "err", "panic")},
         "model_impl_mismatches": mism,
     }
